@@ -7,7 +7,9 @@
 //!       the chunk data, wrong hashes - each through readers that deliver everything at once / 1 byte per read / random pieces /
 //!       with Pending in between, and readers that fail mid-stream.
 //!   (B) streams of many highly compressible maximum-size chunks whose unpacked total is just below / at / above the u32 range of
-//!       the footer's unpacked offsets (a few MB on the wire); the four sizes run in parallel threads.
+//!       the footer's unpacked offsets (a few MB on the wire); the four sizes run in parallel threads, beside three threads that give
+//!       the 32767- / 32768-chunk data WITH a footer to the seekable validator and the 32768-chunk data with footer to the
+//!       streaming one.
 //! Prints `WITNESS ...` and exits 1 on the first violation.
 use std::panic::{catch_unwind, AssertUnwindSafe};
 use std::pin::Pin;
@@ -442,11 +444,66 @@ fn big_stream(n: usize) -> Result<String, String> {
     }
 }
 
+/// the same chunk data WITH a footer (own layout, unpacked offsets as far as they fit into u32, wrapped beyond) through the seekable
+/// validator: within the u32 range it must accept and return the footer as written; beyond, no footer can describe the data
+fn big_seek(n: usize, streaming: bool) -> Result<String, String> {
+    let chunk = vec![0u8; 128 * 1024];
+    let chunk_hash = compute_data_hash(&chunk);
+    let mut one = Vec::new();
+    serialize_chunk(&chunk, &mut one, Some(CompressionScheme::LZ4)).unwrap();
+    let mut file = Vec::with_capacity(one.len() * n + 40 * n + 200);
+    for _ in 0..n {
+        file.extend_from_slice(&one);
+    }
+    let list: Vec<(MerkleHash, usize)> = (0..n).map(|_| (chunk_hash, chunk.len())).collect();
+    let hash = merkledb::aggregate_hashes::cas_node_hash(&list);
+    let hashes = vec![chunk_hash; n];
+    let bounds: Vec<u32> = (1..=n).map(|k| (k * one.len()) as u32).collect();
+    let unpacked: Vec<u32> = (1..=n as u64).map(|k| (k * chunk.len() as u64) as u32).collect();
+    let total: u64 = (n * chunk.len()) as u64;
+    let footer = v1_footer(&hash, &hashes, &bounds, &unpacked, n as u32);
+    file.extend_from_slice(&footer);
+    file.extend_from_slice(&(footer.len() as u32).to_le_bytes());
+    let r = catch_unwind(AssertUnwindSafe(|| {
+        if streaming {
+            block_on(validate_cas_object_from_async_read(&mut &file[..], &hash)).map(|o| o.map(|(cas, gb)| { assert_eq!(gb, None, "go_back_bytes of a footered xorb"); cas }))
+        } else {
+            CasObject::validate_cas_object(&mut std::io::Cursor::new(&file[..]), &hash)
+        }
+    }));
+    let validator = if streaming { "streaming" } else { "seekable" };
+    let what = format!("a xorb of {n} LZ4 chunks of 128 KiB zeros with a V1 footer ({} bytes, {total} unpacked{})", file.len(), if total > u32::MAX as u64 { ", unpacked offsets wrapped modulo 2^32" } else { "" });
+    match r {
+        Err(e) => {
+            let msg = e.downcast_ref::<String>().cloned().or_else(|| e.downcast_ref::<&str>().map(|s| s.to_string())).unwrap_or_default();
+            Err(format!("the {validator} validator panicked on {what}: {msg}"))
+        },
+        Ok(Ok(Some(cas))) => {
+            if total > u32::MAX as u64 {
+                return Err(format!("the {validator} validator ACCEPTS {what}: its unpacked offsets cannot describe the chunk data (last offsets {:?})", &cas.info.unpacked_chunk_offsets[n - 3..]));
+            }
+            let i = &cas.info;
+            if i.cashash != hash || i.num_chunks as usize != n || i.chunk_hashes != hashes || i.chunk_boundary_offsets != bounds || i.unpacked_chunk_offsets != unpacked || cas.info_length as usize != footer.len() {
+                return Err(format!("the {validator} validator ACCEPTS {what} but returns another footer than the one in the file (num_chunks {}, info_length {})", i.num_chunks, cas.info_length));
+            }
+            Ok(format!("{n} chunks with footer, {validator} validator: accepted, footer as written"))
+        },
+        Ok(Ok(None)) | Ok(Err(_)) => {
+            if total <= u32::MAX as u64 {
+                return Err(format!("the {validator} validator REJECTS {what}, a well-formed xorb within the u32 range of the footer"));
+            }
+            Ok(format!("{n} chunks with footer, {validator} validator: rejected"))
+        },
+    }
+}
+
 fn main() {
     let seed: u64 = std::env::var("VERIF_SEED").ok().and_then(|s| s.parse().ok()).unwrap_or(0);
     let sizes = [32767usize, 32768, 32769, 40000];
     // the four big streams are independent: run them beside the small-stream classes
-    let handles: Vec<_> = sizes.iter().map(|n| { let n = *n; std::thread::spawn(move || big_stream(n)) }).collect();
+    let mut handles: Vec<_> = sizes.iter().map(|n| { let n = *n; std::thread::spawn(move || big_stream(n)) }).collect();
+    let sizes: Vec<usize> = sizes.iter().copied().chain([32767usize, 32768, 32768]).collect();
+    handles.extend([(32767usize, false), (32768, false), (32768, true)].map(|(n, streaming)| std::thread::spawn(move || big_seek(n, streaming))));
     std::panic::set_hook(Box::new(|_| {}));
     small_streams(seed);
     for (h, n) in handles.into_iter().zip(sizes) {
